@@ -2,6 +2,7 @@ import PeptVerif.Model.Proto
 import PeptVerif.Model.Annotation
 import PeptVerif.Model.AnnotEq
 import PeptVerif.Model.ModDict
+import PeptVerif.Model.SequenceFuncs
 /-!
 driver for C20: equality, modification dictionaries, strip, create_annotation.
 
@@ -179,6 +180,34 @@ def step (line : String) : String :=
     match parseVal? a with
     | some a => showKeyVal (valKey a)
     | _ => "bad-op"
+  | ["s_stripgetadd", plus, app, s] =>
+    match parseBool? plus, parseBool? app, unesc s with
+    | some plus, some app, some s =>
+      match stripGetAddStr (constPlus plus) app s with
+      | .ok t => "S" ++ esc t
+      | .error e => "ERR:" ++ e.name
+    | _, _, _ => "bad-op"
+  | ["s_popadd", plus, s] =>
+    match parseBool? plus, unesc s with
+    | some plus, some s =>
+      match popAddStr (constPlus plus) s with
+      | .ok t => "S" ++ esc t
+      | .error e => "ERR:" ++ e.name
+    | _, _ => "bad-op"
+  | ["s_strip", s] =>
+    match unesc s with
+    | some s =>
+      match stripModsStr s with
+      | .ok t => "S" ++ esc t
+      | .error e => "ERR:" ++ e.name
+    | none => "bad-op"
+  | ["s_getmods", s] =>
+    match unesc s with
+    | some s =>
+      match getModsStr s with
+      | .ok d => "D" ++ showDict d
+      | .error e => "ERR:" ++ e.name
+    | none => "bad-op"
   | ["moddict", a] =>
     match parseAnnotation? a with
     | some a => showDict (modDict a)
